@@ -1088,7 +1088,17 @@ func (r *runner) concurrent(ctx context.Context, inst *bpmn.Process, o Options, 
 				for k, v := range j.vars {
 					res[k] = v
 				}
-				j.q.tt.Do(bpmn.DoWithResults(res), bpmn.DoWithObjects(map[string]any{"obj": len(res)}))
+				// the same answer is given from two goroutines at once: one of them is effective,
+				// the other returns without effect (and both touch the request concurrently)
+				var twice sync.WaitGroup
+				for k := 0; k < 2; k++ {
+					twice.Add(1)
+					go func() {
+						defer twice.Done()
+						j.q.tt.Do(bpmn.DoWithResults(res), bpmn.DoWithObjects(map[string]any{"obj": len(res)}))
+					}()
+				}
+				twice.Wait()
 			}()
 		}
 		for _, d := range dls {
